@@ -23,19 +23,19 @@ macro_rules! suite {
         } }
     };
     (@kind dec, $maxv:expr, $maxs:expr, $u:expr, $t:ty) => {
-        $crate::proof! { fn dec() unwind($u) {
+        $crate::proof! { v0only fn dec() unwind($u) {
             let n = $crate::checks::for_shapes::<$t>($maxv, $maxs, |v| $crate::checks::dec_check(v));
             assert!(n >= 1);
         } }
     };
     (@kind delim, $maxv:expr, $maxs:expr, $u:expr, $t:ty) => {
-        $crate::proof! { fn delim() unwind($u) {
+        $crate::proof! { v0only fn delim() unwind($u) {
             let n = $crate::checks::for_shapes::<$t>($maxv, $maxs, |v| $crate::checks::delim_check(v));
             assert!(n >= 1);
         } }
     };
     (@kind trunc, $maxv:expr, $maxs:expr, $u:expr, $t:ty) => {
-        $crate::proof! { fn trunc() unwind($u) {
+        $crate::proof! { v0only fn trunc() unwind($u) {
             let n = $crate::checks::for_shapes::<$t>($maxv, $maxs, |v| $crate::checks::trunc_check(v));
             assert!(n >= 1);
         } }
